@@ -127,6 +127,9 @@ def run(ck):
     failing = explore(ck, 0, "C02")
     if failing is None:
         return
+    from checks import emitlib
+    hb, _ = vlib.build_harness()
+    emitlib.tie(ck, hb, failing, ok, 160 if ck.quick else 4000)
     common.report(ck, failing, ok, mlog, "coq/Properties/C02.v (cone) no longer compiles")
 
 
